@@ -142,7 +142,7 @@ def judge(case, ans, ref_out):
     if "panic" in ans or "error" in ans:
         return ["implementation failed: " + json.dumps(ans)[:300]], []
     kr = [k for k, m in enumerate(case["sched"]) if m[0] == "restore"]
-    if not kr:
+    if not kr or not X.runs_to_quiescence(case):
         return [], []
     kr = kr[0]
     cps = [st["cp"] for st in ans["steps"][:kr] if "cp" in st]
